@@ -32,4 +32,13 @@ PROPS = {
         "faults": ["frag", "delay/reorder-dirs", "handler gate order", "handler panic", "body-reader error", "peer RST_STREAM at scheduled points"],
         "probes_expected": ["offender-stopped-after-rst"],
     },
+    "C17": {
+        "level": "fault_enumeration",
+        "level_text": "Fault injection over seeded client byte streams: well-formed multiplexed traffic (the C01 generator) is cut cleanly or reset at a byte offset, bit-flipped, structurally mutated (frame insert/delete/duplicate/reorder, flag flips, retargeted stream ids, raw frames of any type), followed by bursts longer than the internal queues, with the server's write side failing at a byte or the peer no longer reading, and handlers held past the disconnect. Then the peer goes away for good and the fake clock is advanced by an hour. Oracle: no recovered or logged panic, ServeConn has returned, only still-held handlers are alive, no request context recycled under a handler, and after the handlers are released nothing is left.",
+        "level_note": "Offsets and mutations are sampled (seeded), not enumerated exhaustively. 'Gone' = the transport is closed in both directions (writes fail). Liveness is judged only at quiescence after the clock has been advanced by an hour of fake time. Five wedge signatures are known findings (blocked queue sends after a loop has exited).",
+        "design_ref": "DESIGN.md §3 C17",
+        "rule": "a run = seeded plan (C01 traffic, optional mutations and bursts, one fault: cut-eof@n / cut-rst@n / werr@n / stall / bit flips / disconnect with handlers held) under one seeded schedule, then disconnect, +1 h, release handlers. Non-trivial: a fault fired while a request or handler was in flight, or more than 100 frames were sent (queue pressure). Distinct: interleaving hash.",
+        "faults": ["cut-eof@n", "cut-rst@n", "werr@n/short-write", "stall (peer stops reading)", "bit flips", "close-peer with handlers held", "frame mutations", "bursts > queue capacity", "frag", "clock advance (ReadTimeout, IdleTimeout, ping timers)"],
+        "probes_expected": ["fault-cut-eof", "fault-cut-rst", "fault-werr", "fault-stall-s2c", "fault-flip", "fault-close-peer"],
+    },
 }
